@@ -337,6 +337,7 @@ func propC15(t *rapid.T) {
 	if err != nil {
 		t.Fatalf("VERIF-TROUBLE NewEtcdOp: %v", err)
 	}
+	defer etcdsrv.CloseClientsOf(op) // EtcdOp never closes its client
 	got := op.GetAllDroppedObj()
 	want, tt := c.reference(withTarget)
 	for _, kind := range []string{util.DroppedDatabaseKey, util.DroppedCollectionKey, util.DroppedPartitionKey} {
